@@ -73,8 +73,19 @@ def cond_is_nonnull(f, c, field):
 
 
 def check_slot_class(ctx, tu, info):
+    # a slot class whose destructor is not user-written (defaulted / implicit) destroys nothing: every instantiated slot class must have
+    # a destructor for the clause below to be judged on
+    with_dtor = {f.clsq for f in tu.fns if f.kind == 'dtor' and f.cls.split('::')[0] in SLOT_CLASSES and not f.d.get('defaulted') and not f.d.get('implicit')}
+    for f in tu.fns:
+        if f.cls.split('::')[0] in SLOT_CLASSES and f.name == 'clear' and f.clsq not in with_dtor:
+            ctx.ob('C08.P', f, 'the slot class has a destructor of its own that destroys a payload still present', False,
+                   detail='%s has no user-written destructor: a slot that dies while FULL (a list of taken events unwinding after a listener threw, a queue '
+                          'destroyed with events pending) never runs the stored destructor of its payload' % f.clsq[:120],
+                   key_detail='no slot destructor')
     for f in tu.fns:
         if f.cls.split('::')[0] not in SLOT_CLASSES:
+            continue
+        if f.kind == 'dtor' and (f.d.get('defaulted') or f.d.get('implicit')):
             continue
         if f.kind == 'dtor':
             clears = [n for n in f.calls() if (f.callee(n) or {}).get('name') == 'clear']
